@@ -587,14 +587,11 @@ class PRandomImpulseSequence(PStochasticPattern):
         self.pos = 0
 
     def every(self, n: int, action: str = None):
-        if action == "explore":
-            self.every_action = lambda: self.explore()
-        elif action == "reset":
-            self.every_action = lambda: self.reset()
-        elif action == "generate":
-            self.every_action = lambda: self.generate()
-        else:
-            self.every_action = action
+        #--------------------------------------------------------------------------------
+        # Named actions are stored by name and looked up on self when they fire, so that
+        # a copy of this pattern acts on the copy, not on the original.
+        #--------------------------------------------------------------------------------
+        self.every_action = action
         self.every_count = n
         self.every_index = 0
 
@@ -625,7 +622,10 @@ class PRandomImpulseSequence(PStochasticPattern):
     def __next__(self):
         if self.every_action:
             if self.every_index == self.every_count:
-                self.every_action()
+                if self.every_action in ("explore", "reset", "generate"):
+                    getattr(self, self.every_action)()
+                else:
+                    self.every_action()
                 self.every_index = 0
             self.every_index += 1
 
